@@ -254,6 +254,30 @@ NEEDS = {
              "newline: needs an input of more than 1 MiB (all-zero rows are appended to the single-file output)",
     "C18-f": "unpack_fingerprints unpacks a 2-D array through the flat buffer: needs packed 2-D queries with an "
              "explicit n_features that is not a multiple of 8 (rows after the first are shifted)",
+    "C02-f": "jt_isim_radius_compl_from_sum adds the centroid IN PLACE when the candidate sums are already uint64: "
+             "needs a cluster of >= 2^32 members and a radius-type criterion (every accepted merge adds 1 to each "
+             "majority bit of the stored sums)",
+    "C05-g": "round-1 task labels are taken from the '<name>.<idx>.npy' part of the input file names: needs two "
+             "input files with the same <idx> (same file name in two directories): one overwrites the other's "
+             "round-1 files and its fingerprints are in no final cluster",
+    "C10-f": "majority vote as linear_sum * (1.0 / n) >= 0.5: needs an even cluster size n = 2m with m * (1/m) != 1 "
+             "in IEEE double (98, 196, 206, ...) and a column set in exactly half of the members",
+    "C11-g": "radius complement returns 0 whenever the iSIM is 0: needs exactly two disjoint, not both empty "
+             "fingerprints (ties make the centroid their union; the identity gives 1/2)",
+    "C13-f": "C++ argmin with two running minima (even / odd positions) combined without comparing indices: needs "
+             "a minimum attained first in an odd row and again in a later even row",
+    "C14-g": "the silent console's dummy status returns True from __exit__: needs verbose=False (the default) and "
+             "any exception inside a round — it is swallowed, later rounds consume the partial round files",
+    "C15-f": "_get_fingerprints_from_file_seq skips leading files that end before the first index but pairs the "
+             "per-file indices with the unskipped file list: needs refinement from a directory of >= 2 files whose "
+             "largest cluster has no member in the first file",
+    "C17-f": "the tolerance getter answers None unless the criterion's NAME starts with 'tolerance': needs the "
+             "configuration to pass through never-merge (or a custom-named tolerance object) followed by a "
+             "set_merge / setter naming only a criterion (the tolerance reverts to 0.05)",
+    "C19-f": "jt_dbi packs the caller's list of unpacked clusters in place: needs unpacked input and another index "
+             "(or jt_dbi again) computed afterwards on the same list",
+    "C20-f": "the final round of a multi-round run unlinks '*.tmp' before writing its own files: needs the monitor "
+             "stopped between opening max-rss.txt.tmp and renaming it while the final round starts",
 }
 EXTRA = {"C17-a": ["C10"], "C12-a": ["C07"], "C02-a": ["C12"], "C14-b": ["C05"], "C03-b": ["C07"], "C07-b": ["C03"],
          "C05-c": ["C09"], "C02-c": ["C08"], "C09-d": ["C18"], "C03-d": ["C02", "C05"],
